@@ -31,9 +31,37 @@ def fm_macro(specs):
         }} }} }}"""
 
 
+# units added afterwards through the public unit! macro ("every unit of every quantity" includes those a user adds)
+ADDED = """
+pub mod add_length {
+    unit! {
+        system: uom::si;
+        quantity: uom::si::length;
+        @smoot: 1.702_E0; "smt", "smoot", "smoots";
+    }
+}
+pub mod add_temperature {
+    unit! {
+        system: uom::si;
+        quantity: uom::si::thermodynamic_temperature;
+        @degree_reaumur: 1.25_E0, 2.185_2_E2; "°Ré", "degree Réaumur", "degrees Réaumur";
+    }
+}
+pub use add_length::smoot;
+pub use add_temperature::degree_reaumur;
+"""
+ADDED_UNITS = [
+    ("length", {"name": "smoot", "abbr": "smt", "sing": "smoot", "plur": "smoots", "coef": {"lit": ["1702", -3]}, "const": None, "coef_q": ["1702", "1000"], "added": True}),
+    ("thermodynamic_temperature", {"name": "degree_reaumur", "abbr": "°Ré", "sing": "degree Réaumur", "plur": "degrees Réaumur", "coef": {"lit": ["125", -2]},
+                                   "const": {"lit": ["21852", -2]}, "coef_q": ["5", "4"], "added": True}),
+]
+
+
 def unit_slot(q, u, bs, ty):
     rt = STYPES[ty]["rust"]
     qm, alias, un = q["module"], q["alias"], u["name"]
+    if u.get("added"):
+        return unit_slot(q, dict(u, added=False), bs, ty).replace(f"uom::si::{qm}::{un}", un)
     return f"""    type V = {rt};
     type Q = uom::si::{qm}::{alias}<{B.units_type(bs, ty)}, V>;
     type N = uom::si::{qm}::{un};
@@ -95,8 +123,9 @@ def run(ctx):
         return
     quick = ctx.tier == "quick"
     types = ["f64", "f32", "i64", "bigrational"]
-    h = Harness("c11", FEATURES, prelude=B.prelude(BASES, types))
+    h = Harness("c11", FEATURES, prelude=B.prelude(BASES, types) + ADDED)
     units = convlib.select_units(t, ctx.rng.fork("units"), 45 if quick else 400)
+    units = units + [(t.qmap[qm], u) for qm, u in ADDED_UNITS]
     int_ok = lambda u: abs(int(u["coef_q"][0])) < 2 ** 30 and int(u["coef_q"][1]) < 2 ** 30
     cases, meta = [], {}
     for ty in types:
